@@ -30,7 +30,10 @@ def main():
     ap.add_argument("--no-build", action="store_true", help="skip lake build/audit (development only)")
     args = ap.parse_args()
     prop = args.prop.upper()
-    seed = int(os.environ.get("VERIF_SEED", "1") or 1)
+    try:        # one integer; a list like "1,2,3" (several runs meant) uses its first element
+        seed = int((os.environ.get("VERIF_SEED", "1") or "1").replace(" ", "").split(",")[0])
+    except ValueError:
+        seed = 1
     budget = int(os.environ.get("VERIF_TIMEOUT_S", "3300" if args.tier == "thorough" else "1500"))
 
     def on_alarm(*_):
